@@ -46,6 +46,10 @@ def blocks(tier):
         for first in range(core - k + 1):
             yield ("case", k, first)
     yield ("napp",)
+    # the select uses search(): its choices are in-line items whose labels are itext references
+    for k in ((1, 2) if tier == "quick" else (1, 2, 3)):
+        for first in range(core - k + 1):
+            yield ("search", k, first)
     # a choice without any label (accepted with a warning) next to translated / media-bearing / plain siblings
     for k in ((0, 1, 2) if tier == "quick" else (0, 1, 2, 3)):
         if k == 0:
@@ -67,6 +71,15 @@ def expand(block, tier):
                 for extra in [None, *core]:
                     for dl in DEFLANGS[:2]:
                         yield {"cells": [list(extra)] if extra else [], "dl": dl, "ref": ref, "napp": list(ls), "rev": bool(len(ls) % 2)}
+        return
+    if block[0] == "search":
+        _, k, first = block
+        cs = grid.cells(True)
+        n = 0
+        for rest in itertools.combinations(cs[first + 1:], k - 1):
+            for dl in DEFLANGS[:2]:
+                n += 1
+                yield {"cells": [list(c) for c in (cs[first], *rest)], "dl": dl, "ref": False, "rev": bool(n % 2), "search": True}
         return
     if block[0] == "nolabel":
         _, k, first = block
@@ -157,7 +170,7 @@ def build_case(case, **kw):
     import contextlib
 
     with (grid.langs(CASE_LANGS) if case.get("langs") == "case" else contextlib.nullcontext()):
-        wb, ckw = grid.build([tuple(c) for c in case["cells"]], case["dl"], ref=case["ref"], rev=case.get("rev", False), **kw)
+        wb, ckw = grid.build([tuple(c) for c in case["cells"]], case["dl"], ref=case["ref"], rev=case.get("rev", False), search=bool(case.get("search")), **kw)
     for l in case.get("napp", ()):
         wb["survey"][0]["noAppErrorString" + (f"::{l}" if l else "")] = f"q.napp.{l or '0'}" + (" ${inner}" if case["ref"] else "")
     return wb, ckw
